@@ -38,7 +38,7 @@ var configs6 = [][]string{{"LL", "00:de:ad:be:ef:00"}, {"llt", "00:de:ad:be:ef:0
 var configs4 = [][]string{{"192.0.2.1"}, {"::ffff:192.0.2.1"}, {"10.255.255.254"}}
 
 func run(r *ev.Run) {
-	r.Rule("E3, one process per server_id configuration. v6: configured DUID {LL,LLT x 2 MAC spellings} x message type {0..14,255} x Server Identifier {absent, equal, same MAC other DUID kind, other MAC, EN, UUID, equal-prefix-longer, equal-prefix-shorter, EN of 130/131/200 octets, LL of 1000, unknown type of 500, own padded to 131/300} x relay depth 0..2, both as a direct handler call (all types) and through HandleMsg6 (supported types, reply bytes inspected). v4: server_id {dotted, v4-mapped, other} x siaddr {0, own, other} x option 54 {absent, own, other, 0.0.0.0 (not asserted)} x {DISCOVER, REQUEST} through HandleMsg4. Reference: RFC 8415 s.16 table / the statement's v4 rule. Class = proto/type/sid variant/outcome.")
+	r.Rule("E3, one process per server_id configuration. v6: configured DUID {LL,LLT x 2 MAC spellings} x message type {0..14,255} x Server Identifier {absent, equal, same MAC other DUID kind, other MAC, EN, UUID, equal-prefix-longer, equal-prefix-shorter, EN of 130/131/200 octets, LL of 1000, unknown type of 500, own padded to 131/300} x relay depth 0..2, both as a direct handler call (all types) and through HandleMsg6 (supported types, reply bytes inspected). v4: server_id {dotted, v4-mapped, other} x siaddr {0, own, other} x option 54 {absent, own, other, 0.0.0.0 (not asserted)} x giaddr {0, set} x option 82 {absent, circuit-id, server-id-override = other / own / malformed, with link selection} x {DISCOVER, REQUEST} through HandleMsg4. Reference: RFC 8415 s.16 table / the statement's v4 rule. Class = proto/type/sid variant/outcome.")
 	r.Assume("requests with several Server Identifier options and option 54 = 0.0.0.0 are enumerated but not asserted")
 	for _, a := range configs6 {
 		res := reg.Spawn(r, "C14", 15*time.Minute, append([]string{"6"}, a...)...)
@@ -252,18 +252,26 @@ func run4(r *ev.Run, args []string) {
 		for _, si := range []string{"zero", "own", "other"} {
 			for _, o54 := range []string{"absent", "own", "other", "zero"} {
 				for _, gi := range []bool{false, true} {
-					p := pkt.V4{Op: 1, HType: 1, HLen: 6, Xid: 0x14141414, Flags: 0x8000}
-					copy(p.CHAddr[:], []byte{2, 0, 0, 0, 0, 0x14})
-					copy(p.SI[:], vals[si])
-					if gi {
-						p.GI = [4]byte{10, 0, 0, 1}
+					// relay-agent information, incl. the RFC 5107 server-identifier-override and
+					// RFC 3527 link-selection sub-options: whatever a relay puts there, this
+					// server's identifier is the configured one
+					for _, o82 := range [][]byte{nil, {1, 2, 'c', 'i'}, append([]byte{11, 4}, other...), append([]byte{11, 4}, own...), append(append([]byte{1, 2, 'c', 'i', 5, 4, 10, 1, 1, 0}, 11, 4), other...), {11, 0}, {11, 2, 1, 2}} {
+						p := pkt.V4{Op: 1, HType: 1, HLen: 6, Xid: 0x14141414, Flags: 0x8000}
+						copy(p.CHAddr[:], []byte{2, 0, 0, 0, 0, 0x14})
+						copy(p.SI[:], vals[si])
+						if gi {
+							p.GI = [4]byte{10, 0, 0, 1}
+						}
+						p.Opts = []pkt.Opt4{{Code: 53, Data: []byte{mt}}}
+						if o54 != "absent" {
+							p.Opts = append(p.Opts, pkt.Opt4{Code: 54, Data: vals[o54]})
+						}
+						if o82 != nil {
+							p.Opts = append(p.Opts, pkt.Opt4{Code: 82, Data: o82})
+						}
+						c := Case{4, args, hex.EncodeToString(p.Bytes()), false}
+						eval4(r, h, c, own, si, o54, fmt.Sprintf("v4/type=%d/siaddr=%s/opt54=%s", mt, si, o54))
 					}
-					p.Opts = []pkt.Opt4{{Code: 53, Data: []byte{mt}}}
-					if o54 != "absent" {
-						p.Opts = append(p.Opts, pkt.Opt4{Code: 54, Data: vals[o54]})
-					}
-					c := Case{4, args, hex.EncodeToString(p.Bytes()), false}
-					eval4(r, h, c, own, si, o54, fmt.Sprintf("v4/type=%d/siaddr=%s/opt54=%s", mt, si, o54))
 				}
 			}
 		}
